@@ -3,6 +3,7 @@
  */
 
 #include <string.h>
+#include <stdlib.h>
 #include <limits.h>
 #include <ctype.h>
 #include <errno.h>
@@ -90,11 +91,22 @@ extern ssize_t mpt_message_argv(MPT_STRUCT(message) *msg, int sep)
 	}
 	/* find space character not in escapes */
 	if (!isgraph(sep)) {
-		if ((part = mpt_memtok(&curr, 1, "\t \n\r\v", NULL, "'\"")) >= 0) {
-			return part;
+		if (!clen) {
+			part = mpt_memtok(&curr, 1, "\t \n\r\v", NULL, "'\"");
 		}
-		if (clen && (part = mpt_memtok(cont, clen, "\t \n\r\v", NULL, "'\"")) >= 0) {
-			return curr.iov_len + part;
+		/* escape state has to persist over all parts */
+		else {
+			struct iovec *all;
+			if (!(all = malloc((clen + 1) * sizeof(*all)))) {
+				return MPT_ERROR(BadOperation);
+			}
+			all[0] = curr;
+			memcpy(all + 1, cont, clen * sizeof(*all));
+			part = mpt_memtok(all, clen + 1, "\t \n\r\v", NULL, "'\"");
+			free(all);
+		}
+		if (part >= 0) {
+			return part;
 		}
 		sep = 0;
 	}
